@@ -199,6 +199,7 @@ class BCRun(object):
         self.timers = []
         self.hooks = {}  # serial -> action words to run (re-entrantly) when that Deferred fires
         self.close_called = False
+        self.sync = "none"
         self.world.net.log = _FwdList(self._net_event)
         clock = self.world.clock
         orig_call_later = clock.callLater
@@ -292,8 +293,20 @@ class BCRun(object):
         _active.append(self)
         n0 = len(self.log)
         try:
-            self._ex(line.split())
-            self._drain()
+            try:
+                self._ex(line.split())
+            except ValueError as e:
+                if str(e).startswith("unknown event"):
+                    raise
+                self.log.append("raise other:%s" % e.__class__.__name__)
+            except Exception as e:
+                # an exception escaping from a driven API call (makeRequest / cancel / close / disconnect /
+                # connectionLost / a timer) is an observation like any other: the model never produces it
+                self.log.append("raise other:%s" % e.__class__.__name__)
+            try:
+                self._drain()
+            except Exception as e:
+                self.harness_errors.append("drain raised %s" % e.__class__.__name__)
         finally:
             _active.pop()
         return self.log[n0:]
@@ -421,6 +434,17 @@ class BCRun(object):
             self.wfail = w[1] == "1"
         elif op == "stubborn":
             self.world.net.stubborn = w[1] == "1"
+        elif op == "sync":
+            # an endpoint whose connect() Deferred has ALREADY fired when connect() returns
+            self.sync = w[1]
+            if w[1] == "ok":
+                net.policy = lambda p: setattr(self, "cur", p.accept())
+            elif w[1] == "fail":
+                net.policy = lambda p: p.refuse()
+            elif w[1] == "none":
+                net.policy = None
+            else:
+                raise ValueError("unknown event %r" % (w,))
         else:
             raise ValueError("unknown event %r" % (w,))
 
@@ -494,6 +518,7 @@ class BCRun(object):
             self.wfail,
             tuple(sorted((self.by_serial[k][0], tuple(tuple(a) for a in v)) for k, v in self.hooks.items())),
             self.world.net.stubborn,
+            self.sync,
         )
 
 
